@@ -28,8 +28,8 @@ func init() { register("C12", checkC12) }
 
 type overrideRoles struct {
 	cr       *clientRoles
-	override *ssa.Function // maybeOverrideUnsupportedWriteConsistency
-	member   *ssa.Function // isUnsupportedWriteConsistency
+	override *ssa.Function          // maybeOverrideUnsupportedWriteConsistency
+	member   *ssa.Function          // isUnsupportedWriteConsistency
 	helpers  map[*ssa.Function]bool // private helpers of the override between it and the membership test
 	reencode []*ssa.Function
 }
@@ -115,6 +115,7 @@ func ownerOfField(p *Prog, fa *ssa.FieldAddr) *types.Named {
 }
 
 func checkC12(p *Prog, r *Report) {
+	requireRecognisedDispatch(p)
 	r.NotCov = append(r.NotCov,
 		"how the backend interprets the overridden consistency",
 		"byte-level equality of the re-encoded body with the original (the partial codecs' layout and field symmetry are decided under C11)")
@@ -128,6 +129,7 @@ func checkC12(p *Prog, r *Report) {
 	codecLayouts(p, r, "C12")
 	// the configured override level is the one used: nothing re-defaults it after parsing (ANY is the zero value)
 	r.borrow("C20", "C12", func() { c20ConfiguredValuesKept(p, r) })
+	r.borrow("C03", "C12", func() { c03FrameOwnership(p, r) })
 }
 
 func c12Guard(p *Prog, r *Report, or *overrideRoles) {
@@ -153,7 +155,20 @@ func c12Guard(p *Prog, r *Report, or *overrideRoles) {
 	}
 	for _, isSel := range []bool{true, false} {
 		s := newSim(p)
-		s.Inline = func(f *ssa.Function) bool { return or.helpers[f] }
+		// private helpers of the override (choosing the kind of request, ...) are part of it
+		s.Inline = func(f *ssa.Function) bool {
+			if or.helpers[f] {
+				return true
+			}
+			return f.Parent() == nil && f != or.member && !reenc[f] && recvNamed(f) == nil && pkgOfFn(f) == pkgOfFn(fn) && !f.Object().Exported() && onlyCalledFrom(p, f, fn, 2)
+		}
+		// the configured override, wherever the value travels
+		s.LoadVal = func(ld *ssa.UnOp) (AV, bool) {
+			if strings.Contains(fieldPath(ld), ovF.Name()) {
+				return avSymbol("override"), true
+			}
+			return AV{}, false
+		}
 		s.OnInstr = func(st *State, in ssa.Instruction) {
 			stv, ok := in.(*ssa.Store)
 			if !ok {
@@ -199,6 +214,9 @@ func c12Guard(p *Prog, r *Report, or *overrideRoles) {
 							okVal = true
 						}
 					}
+					if a := s.eval(st, stv.Val); a.K == avSym && a.S == "override" {
+						okVal = true
+					}
 					if okVal {
 						st.aux["cons"] = st.aux["cons"] + "+"
 					} else {
@@ -232,7 +250,7 @@ func c12Guard(p *Prog, r *Report, or *overrideRoles) {
 		}
 		s.OnBranch = func(st *State, cond ssa.Value, truth bool) {
 			if ex, ok := cond.(*ssa.Extract); ok && truth {
-				if ta, ok := ex.Tuple.(*ssa.TypeAssert); ok && ta.Parent() == fn {
+				if ta, ok := ex.Tuple.(*ssa.TypeAssert); ok && isPartialMsgType(ta.AssertedType) {
 					st.aux["arm"] = shortType(ta.AssertedType)
 				}
 			}
@@ -305,6 +323,10 @@ func c12Membership(p *Prog, r *Report, or *overrideRoles) {
 	r.Rule(rule, "the unsupported-consistency test returns true only when an element of the configured list equals the request's consistency, false after the list is exhausted (empty list => false)")
 	fn := or.member
 	uwcF := p.Field("proxy", "Config", "UnsupportedWriteConsistencies")
+	if c12MembershipAnyOf(p, fn, uwcF) {
+		r.ok(rule, fn.Name(), p.Pos(fn.Pos()), "any-of over the configured list with `element == request's consistency` as the predicate")
+		return
+	}
 	var bad []string
 	var eqs []*ssa.BinOp
 	eachInstr(fn, func(in ssa.Instruction) {
@@ -354,6 +376,80 @@ func c12Membership(p *Prog, r *Report, or *overrideRoles) {
 		}
 	})
 	r.check(len(bad) == 0, rule, fn.Name(), p.Pos(fn.Pos()), "", strings.Join(dedupe(bad), " || "))
+}
+
+// c12MembershipAnyOf: the test is `return anyOf(config list, func(e) bool { return e.ConsistencyLevel == consistency })`
+// through a recognised membership helper (slices.ContainsFunc or a repository function of that
+// shape, see anyOfKind).
+func c12MembershipAnyOf(p *Prog, fn *ssa.Function, uwcF *types.Var) bool {
+	var theCall *ssa.Call
+	okRet := true
+	eachInstr(fn, func(in ssa.Instruction) {
+		ret, ok := in.(*ssa.Return)
+		if !ok {
+			return
+		}
+		c, isCall := ret.Results[0].(*ssa.Call)
+		if !isCall || (theCall != nil && theCall != c) {
+			okRet = false
+			return
+		}
+		theCall = c
+	})
+	if !okRet || theCall == nil || len(theCall.Call.Args) != 2 || p.anyOfKind(theCall.Call.StaticCallee()) != "func" {
+		return false
+	}
+	if f, _ := loadedField(theCall.Call.Args[0]); f != uwcF {
+		return false
+	}
+	preds := p.funcValueTargets(theCall.Call.Args[1], 1)
+	if len(preds) != 1 || preds[0].Parent() != fn || len(preds[0].Params) != 1 {
+		return false
+	}
+	cf := preds[0]
+	isSubject := func(v ssa.Value) bool {
+		// the consistency being tested: the enclosing function's parameter, captured
+		for _, o := range origins(v) {
+			fv, ok := o.(*ssa.FreeVar)
+			if !ok {
+				return false
+			}
+			b := freeVarBinding(fv)
+			if b == nil {
+				return false
+			}
+			if par, ok := b.(*ssa.Parameter); ok && par == fn.Params[1] {
+				continue
+			}
+			al, ok := b.(*ssa.Alloc)
+			if !ok {
+				return false
+			}
+			for _, ref := range *al.Referrers() {
+				if st, ok := ref.(*ssa.Store); ok && st.Addr == ssa.Value(al) && st.Val != ssa.Value(fn.Params[1]) {
+					return false
+				}
+			}
+		}
+		return true
+	}
+	isElem := func(v ssa.Value) bool {
+		fp := fieldPath(v)
+		return strings.HasSuffix(fp, ".ConsistencyLevel") && strings.HasPrefix(fp, cf.Params[0].Name()+".")
+	}
+	okPred, n := true, 0
+	eachInstr(cf, func(in ssa.Instruction) {
+		ret, ok := in.(*ssa.Return)
+		if !ok {
+			return
+		}
+		n++
+		bo, isCmp := ret.Results[0].(*ssa.BinOp)
+		if !isCmp || bo.Op != token.EQL || !((isElem(bo.X) && isSubject(bo.Y)) || (isElem(bo.Y) && isSubject(bo.X))) {
+			okPred = false
+		}
+	})
+	return okPred && n > 0
 }
 
 // c12Reencode: the frame literal and its conversion.
@@ -488,16 +584,15 @@ func c12IsSelect(p *Prog, r *Report, or *overrideRoles) {
 	r.Rule(rule, "isSelect is derived from the parsed statement (QUERY, PREPARE), from the metadata stored at PREPARE (EXECUTE), or is false (BATCH); the override decision receives that same flag with this request's frame and body")
 	cr := or.cr
 	fwd := cr.forward
-	// which parameter of forward is isSelect: the bool parameter
-	selIdx := -1
-	for i, par := range fwd.Params {
-		if b, ok := par.Type().Underlying().(*types.Basic); ok && b.Kind() == types.Bool {
-			selIdx = i
-		}
-	}
-	if selIdx < 0 {
+	// which input of forward is isSelect: the bool parameter (or the bool field of an options record)
+	slots := slotsOfType(fwd, func(t types.Type) bool {
+		b, ok := t.Underlying().(*types.Basic)
+		return ok && b.Kind() == types.Bool
+	})
+	if len(slots) != 1 {
 		fatalf("anchor: %s has no bool parameter", fwd.Name())
 	}
+	selSlot := slots[0]
 	// inside forward: override(isSelect, raw, body) gets the same parameters
 	var fb []string
 	found := false
@@ -507,7 +602,7 @@ func c12IsSelect(p *Prog, r *Report, or *overrideRoles) {
 		}
 		found = true
 		for _, a := range c.Common().Args[1:] {
-			if _, ok := a.(*ssa.Parameter); !ok {
+			if _, ok := slotOfValue(fwd, a); !ok {
 				fb = append(fb, p.Pos(c.Pos())+": override decision is not given the forwarded request's own flag/frame/body")
 			}
 		}
@@ -579,7 +674,7 @@ func c12IsSelect(p *Prog, r *Report, or *overrideRoles) {
 				return
 			}
 			sites++
-			arg := c.Common().Args[selIdx]
+			arg := slotArg(c, selSlot)
 			kind := "?"
 			for _, par := range fn.Params {
 				switch {
@@ -595,6 +690,9 @@ func c12IsSelect(p *Prog, r *Report, or *overrideRoles) {
 				kind = "BATCH"
 			}
 			var bad []string
+			if arg == nil {
+				bad = append(bad, "the isSelect flag handed to the forwarding function could not be resolved at this site")
+			}
 			for _, o := range origins(arg) {
 				switch kind {
 				case "QUERY", "PREPARE":
@@ -815,7 +913,6 @@ func c12MetadataBeforeReply(p *Prog, r *Report, rule string) {
 	r.check(len(bad) == 0 && len(replyCalls) > 0, rule, req.Obj().Name()+".OnResult", p.Pos(onRes.Pos()), fmt.Sprintf("%d reply site(s), %d store site(s)", len(replyCalls), len(storeCalls)), strings.Join(dedupe(bad), " || "))
 }
 
-
 // reencodeErrorPath: the frame result of a failed conversion is nil.  Returned inside an interface
 // value it is a non-nil interface holding a nil *RawFrame: the backend connection's writer
 // dereferences it and the process dies.
@@ -859,7 +956,6 @@ func reencodeErrorPath(p *Prog, fn *ssa.Function) []string {
 	})
 	return bad
 }
-
 
 // callsDirectlyOrIs: helper for choosing what to inline in the IsQueryHandled simulation: the
 // statement-level functions (named isHandled...), not the selector/term parsers below them.
